@@ -367,7 +367,11 @@ messageTypeSwitching:
 	case *objects.BadServerSalt:
 		m.serverSalt = message.NewSalt
 		err := m.SaveSession()
-		check(err)
+		if err != nil {
+			// storage problem (disk is full, file is locked) is not a reason to kill the process: session goes on
+			// with the new salt, storage will get it with the next successful save
+			m.warnError(errors.Wrap(err, "saving session"))
+		}
 		verifPoint("salt.adopted", message.NewSalt, message.BadMsgID)
 
 		// server rejected exactly one message: message.BadMsgID. only its sender has to repeat the request (with a new
